@@ -3,7 +3,7 @@
    "Close after the last Write returned" = every producer is done and the consumer has run
    until TryNext fails ([drained]: the slot at the read index is empty or stale), which is
    what Poller.Next / Waiter.Next do once the context is cancelled. *)
-From Verif Require Import Base.Prelude Lts.Diode Proofs.DiodeP.
+From Verif Require Import Base.Prelude Lts.Diode Lts.Waiter Proofs.DiodeP Proofs.WaiterInvP Proofs.WaiterP.
 From Coq Require Import Permutation Sorted.
 Open Scope N_scope.
 
@@ -53,6 +53,30 @@ Theorem C11_firstlap_overwrite_refuted :
   delivered s = [(0, 200); (1, 100)] /\ returned s = [(1, 100); (2, 101); (0, 200)] /\ ri s = 2 /\ claims s = 3.
 Proof. exact firstlap_overwrite_refuted. Qed.
 
+(* Close drains, at the level of diode.Writer (waiter or poller mode, repaired Next of commit
+   1123673: one more TryNext once the context is done).  For every schedule in which Close is
+   called after the last Write returned: when Close has returned, the poll goroutine has
+   finished, every Write has returned and the ring has nothing deliverable at the read index. *)
+Theorem C11_close_drains : forall wt n ps sched, let w := wrun wt true n ps sched in
+  closer w = KDone -> drained (d w) = true /\ all_written w = true /\ cons w = CDone.
+Proof. exact close_drains. Qed.
+
+(* ... hence delivered + reported = written at the wrapped writer whenever no producer retried
+   a position and no CAS replaced a larger seq (i.e. modulo K2 and K3) *)
+Theorem C11_close_accounting : forall wt n ps sched, (0 < n)%nat -> let w := wrun wt true n ps sched in
+  closer w = KDone -> claims (d w) < two64 ->
+  g_casfail (d w) = 0 -> g_newer (d w) = 0 -> g_ovl (d w) = 0 ->
+  N.of_nat (length (wdelivered w)) + sumN (alerts (d w)) = N.of_nat (length (wreturned w)).
+Proof. exact close_accounting. Qed.
+
+(* regression of the fixed defect close-races-last-poll: the Write completes and Close is called
+   between the consumer's failed TryNext and its isDone check; the message is delivered *)
+Example C11_ex_close_race_fixed :
+  let w := wrun true true 1 [[100]]
+    ([TCons; TCons; TProd 0; TProd 0; TProd 0; TProd 0; TCloser] ++ rep 12 TCons ++ rep 4 TCancel ++ [TCloser])%nat in
+  closer w = KDone /\ wreturned w = [100] /\ wdelivered w = [100] /\ drained (d w) = true.
+Proof. vm_compute. auto. Qed.
+
 (* the underflow itself: on the first lap the newer-test is false whatever the slot holds *)
 Example C11_ex_underflow : newer_test 2 0 (Some (2, 101)) = false /\ newer_test 2 4 (Some (6, 101)) = true.
 Proof. vm_compute. auto. Qed.
@@ -76,3 +100,5 @@ Print Assumptions C11_drain_partial.
 Print Assumptions C11_below_capacity_no_drop.
 Print Assumptions C11_hole_refuted.
 Print Assumptions C11_firstlap_overwrite_refuted.
+Print Assumptions C11_close_drains.
+Print Assumptions C11_close_accounting.
